@@ -1317,6 +1317,25 @@ func c18e(c *Ctx) {
 		ok = f != nil && f["LineNumberStart"] == "$0.LineNumber" && f["LineNumberEnd"] == "$0.EndLineNumber" && f["CharStart"] == "$0.StartCharIndex" && f["CharEnd"] == "$0.EndCharIndex" && f["Utf8CharStart"] == "$0.StartUtf8CharIndex" && f["Utf8CharEnd"] == "$0.EndUtf8CharIndex" && f["Message"] == "$1"
 		c.Check(ok, "NewParseError/fields", c.W.FuncPos(np), "error range = the token's own range", "NewParseError does not copy the token's own start and end")
 	}
+	// what the user reads is the start line and the message
+	if ef := c.W.Method("parser", "ParseError", "Error"); ef != nil {
+		okE := false
+		got := ""
+		for _, r := range returnsOf(ef) {
+			if f, ops, ok := flatTemplate(r.Results[0], 0); ok {
+				got = f
+				if f == "line %d: %s" && len(ops) == 2 && c.term(ef, ops[0]) == "$0.LineNumberStart" && c.term(ef, ops[1]) == "$0.Message" {
+					okE = true
+				}
+				if !okE {
+					got = f + " <- " + c.term(ef, ops[0])
+				}
+			}
+		}
+		c.Check(okE, "ParseError.Error/text", c.W.FuncPos(ef), "the error text names the start line and the message", "ParseError.Error() renders "+pretty(got)+", expected \"line <LineNumberStart>: <Message>\": the line a user is sent to would not be where the construct starts")
+	} else {
+		c.Unk("ParseError.Error/text", "-", "ParseError.Error not found")
+	}
 	c18eLocated(c, nr, np)
 	loopDominates := func(fn *ssa.Function, ta, tb string) bool {
 		// tags L<n>: header block n of a dominates header block n of b
